@@ -12,7 +12,7 @@ import sys
 from typing import List
 import billiard.popen_fork as pf
 import billiard.process as bproc
-from harness.hbase import fail, tier, Prune, ND, realize, pick, untraced, PART, NPART
+from harness.hbase import fail, tier, Prune, ND, realize, pick, untraced, PART, NPART, CODEMAX
 
 NPOLL = tier(3, 4)
 
@@ -672,4 +672,281 @@ def h_spawn_launch(nextra: int) -> bool:
             return fail('C19:spawn:parent-leaks-the-data-pipe')
         if k.written.get(data_w) is None or k.written[data_w].getvalue() != b'DD':
             return fail('C19:spawn:preparation-data-not-written-to-the-child')
+        return True
+
+
+# ---------------------------------------------------------------------------
+# forkserver start method, serving side: the real forkserver.main / _serve_one / write_unsigned over a fake kernel (signal table, listener
+# socket, selector, fork, descriptors).  What the parent's Popen.poll reads from the status pipe (forkserver-poll above) is what the child
+# branch writes here; a process started this way must be able to reap its own children (SIGCHLD disposition as before the server ignored it).
+
+class _FsExit(BaseException):
+    def __init__(self, code):
+        self.code = code
+
+
+class _FsKernel:
+    def __init__(self, nd, fork_result, first_ready, pid):
+        self.nd = nd
+        self.fork_result = fork_result
+        self.first_ready = first_ready
+        self.pid = pid
+        self.sigtable = {}
+        self.log = []
+        self.closed = set()
+        self.written = {}
+        self.selects = 0
+        self.accepted = []
+        self.in_child = False
+        self.sigchld_at_main = 'unset'
+        self.closed_at_main = None
+        self.bytes_out = 0
+
+
+def _fs_serve(code, want):
+    import signal as _signal
+    import billiard.forkserver as fs
+    from harness.hbase import NDCode
+    nd = NDCode(code)
+    first_ready = nd.draw(0, 1)         # 0: a client connects, 1: the last client went away (EOF on the alive pipe)
+    forked = nd.draw(0, 1)              # fork() returns 0 (we are the new child) / a pid (we are the server)
+    vi = nd.draw(0, len(FS_VALUES) - 1)
+    outcome = nd.draw(0, 1)             # the process object runs to an exit code / spawn._main raises
+    old = (_signal.SIG_DFL, 'user-handler')[nd.draw(0, 1)]       # SIGCHLD disposition the server was started with
+    ninh = nd.draw(0, 1) * 2
+    # how the kernel splits each of the two status writes: all at once / byte by byte / one byte then the rest / all but one then the last
+    wmodes = [nd.draw(0, 3), nd.draw(0, 3)]
+    value = FS_VALUES[vi]
+    with untraced():          # every choice is drawn: the rest runs concretely outside the tracer
+        return _fs_serve_run(first_ready, forked, value, outcome, old, ninh, wmodes, want)
+
+
+def _fs_serve_run(first_ready, forked, value, outcome, old, ninh, wmodes, want):
+    import signal as _signal
+    import billiard.forkserver as fs
+    nd = None
+    LISTENER_FD, ALIVE_R, CHILD_R, CHILD_W, ALIVE_W, STFD = 30, 31, 40, 41, 42, 43
+    k = _FsKernel(nd, 0 if forked == 0 else 777, first_ready, 5151)
+    k.sigtable[_signal.SIGCHLD] = old
+
+    class _FakeSignal:
+        def __getattr__(self, name):          # constants and anything harmless come from the real module
+            return getattr(_signal, name)
+
+        @staticmethod
+        def signal(num, h):
+            prev = k.sigtable.get(num, _signal.SIG_DFL)
+            k.sigtable[num] = h
+            return prev
+
+        @staticmethod
+        def getsignal(num):
+            return k.sigtable.get(num, _signal.SIG_DFL)
+    FakeSignal = _FakeSignal()
+
+    class Sock:
+        def __init__(self, name, fd):
+            self.name, self.fd, self.is_closed = name, fd, False
+
+        def getsockname(self):
+            return '/fake/address'
+
+        def fileno(self):
+            return self.fd
+
+        def close(self):
+            self.is_closed = True
+            k.log.append(('close', self.name, 'child' if k.in_child else 'server'))
+
+        def accept(self):
+            s = Sock('conn%d' % len(k.accepted), 50 + len(k.accepted))
+            k.accepted.append(s)
+            return s, None
+
+        def __enter__(self):
+            return self
+
+        def __exit__(self, *a):
+            self.close()
+            return False
+    listener = Sock('listener', LISTENER_FD)
+
+    class FakeSocket:
+        AF_UNIX = 1
+
+        @staticmethod
+        def socket(family, fileno=None):
+            if fileno != LISTENER_FD:
+                raise OSError(9, 'not the listener descriptor')
+            return listener
+
+    class Selector:
+        def __enter__(self):
+            return self
+
+        def __exit__(self, *a):
+            return False
+
+        def register(self, obj, ev):
+            k.log.append(('register', obj if isinstance(obj, int) else obj.name))
+
+        def select(self, timeout=None):
+            k.selects += 1
+            Key = type('Key', (), {})
+            kk = Key()
+            if k.selects == 1 and k.first_ready == 0:
+                kk.fileobj = listener
+            else:
+                kk.fileobj = ALIVE_R
+            return [(kk, 1)]
+
+    class FakeSelectors:
+        EVENT_READ = 1
+        DefaultSelector = Selector
+
+    class FakeOS:
+        devnull = _os.devnull
+
+        def __getattr__(self, name):
+            return getattr(_os, name)
+
+        @staticmethod
+        def fork():
+            if k.fork_result == 0:
+                k.in_child = True
+            return k.fork_result
+
+        @staticmethod
+        def getpid():
+            return k.pid if k.in_child else 4000
+
+        @staticmethod
+        def read(fd, n):
+            if fd == ALIVE_R:
+                return b''
+            raise OSError(9, 'unexpected read')
+
+        @staticmethod
+        def close(fd):
+            k.closed.add((fd, 'child' if k.in_child else 'server'))
+
+        @staticmethod
+        def write(fd, data):
+            data = bytes(data)
+            msg = 0 if k.bytes_out < 8 else 1
+            mode = wmodes[msg]
+            left = len(data)
+            n = {0: left, 1: 1, 2: 1 if left == 8 else left, 3: left - 1 if left == 8 else left}[mode]
+            n = max(1, n)
+            k.bytes_out += n
+            k.written.setdefault(fd, []).append(data[:n])
+            return n
+
+        @staticmethod
+        def _exit(c):
+            raise _FsExit(c)
+
+    class FakeReduction:
+        @staticmethod
+        def recvfds(sock, maxfds):
+            if sock.is_closed:
+                raise OSError(9, 'socket closed before the descriptors were received')
+            return [CHILD_R, CHILD_W, ALIVE_W, STFD] + [70 + j for j in range(ninh)]
+
+    class FakeSpawn:
+        @staticmethod
+        def _main(fd):
+            k.sigchld_at_main = k.sigtable.get(_signal.SIGCHLD)
+            k.closed_at_main = (listener.is_closed, (ALIVE_R, 'child') in k.closed)
+            k.main_fd = fd
+            if outcome == 1:
+                raise RuntimeError('cannot unpickle the process object')
+            return value
+
+    class FakeTracker:
+        _semaphore_tracker = type('T', (), {'_fd': None})()
+
+    class FakeSys:
+        stdin = None
+        modules = {}
+        excepthook = staticmethod(lambda *a: None)
+        exc_info = staticmethod(lambda: (None, None, None))
+        stderr = type('E', (), {'flush': staticmethod(lambda: None)})()
+    saved = (fs.signal, fs.socket, fs.selectors, fs.os, fs.reduction, fs.spawn, fs.semaphore_tracker, fs.sys,
+             fs._forkserver._forkserver_address, fs._forkserver._forkserver_alive_fd, fs._forkserver._inherited_fds)
+    fs.signal, fs.socket, fs.selectors, fs.os, fs.reduction, fs.spawn, fs.semaphore_tracker, fs.sys = (
+        FakeSignal, FakeSocket, FakeSelectors, FakeOS(), FakeReduction, FakeSpawn, FakeTracker, FakeSys)
+    end = None
+    try:
+        try:
+            fs.main(LISTENER_FD, ALIVE_R, [])
+            end = ('returned', None)
+        except SystemExit:
+            end = ('server-exit', None)
+        except _FsExit as e:
+            end = ('child-exit', e.code)
+        inherited = fs._forkserver._inherited_fds
+        alive_fd = fs._forkserver._forkserver_alive_fd
+    finally:
+        (fs.signal, fs.socket, fs.selectors, fs.os, fs.reduction, fs.spawn, fs.semaphore_tracker, fs.sys,
+         fs._forkserver._forkserver_address, fs._forkserver._forkserver_alive_fd, fs._forkserver._inherited_fds) = saved
+    if first_ready == 1 or forked == 1:
+        # the server itself: it ignores SIGCHLD (nobody reaps its children: their status travels over the pipe), serves until the last
+        # client is gone and then exits; the connection of a request it forked for is closed on its side
+        if end != ('server-exit', None):
+            return fail('C19:forkserver-main:server-does-not-exit-when-the-last-client-is-gone')
+        if k.sigtable.get(_signal.SIGCHLD) is not _signal.SIG_IGN:
+            return fail('C19:forkserver-main:server-does-not-ignore-SIGCHLD')
+        if first_ready == 0 and not all(s.is_closed for s in k.accepted):
+            return fail('C19:forkserver-main:server-keeps-the-request-connection-open')
+        if k.written:
+            return fail('C19:forkserver-main:server-writes-to-a-status-pipe')
+        return not (want and first_ready == 0)
+    # the new child
+    if end is None or end[0] != 'child-exit':
+        return fail('C19:forkserver-child:does-not-end-with-os._exit')
+    if k.sigchld_at_main == 'unset':
+        return fail('C19:forkserver-child:process-object-never-run')
+    if k.sigchld_at_main is not old:
+        # with SIGCHLD still ignored the started process cannot wait for children of its own (waitpid fails with ECHILD): their exit
+        # statuses - the subject of this property one level down - are lost
+        return fail('C19:forkserver-child:SIGCHLD-disposition-not-restored-before-the-process-runs')
+    if k.closed_at_main != (True, True):
+        return fail('C19:forkserver-child:server-descriptors-still-open-while-the-process-runs')
+    if getattr(k, 'main_fd', None) != CHILD_R:
+        return fail('C19:forkserver-child:process-object-read-from-the-wrong-descriptor')
+    if alive_fd != ALIVE_W or list(inherited) != [70 + j for j in range(ninh)] or FakeTracker._semaphore_tracker._fd != STFD:
+        return fail('C19:forkserver-child:received-descriptors-mixed-up')
+    out = b''.join(k.written.get(CHILD_W, []))
+    if set(k.written) - {CHILD_W}:
+        return fail('C19:forkserver-child:status-written-to-the-wrong-descriptor')
+    exp = fs.UNSIGNED_STRUCT.pack(k.pid) + (fs.UNSIGNED_STRUCT.pack(value) if outcome == 0 else b'')
+    if out != exp:
+        # the parent reads the pid, later the exit code, from this pipe (popen_forkserver.Popen); a child that failed before it had a
+        # code writes none, which the parent reports as 255
+        return fail('C19:forkserver-child:status-pipe-does-not-carry-pid-then-exit-code')
+    if want and outcome == 0 and len(k.written.get(CHILD_W, [])) > 2:
+        return False
+    return True
+
+
+def h_forkserver_serve(code: int) -> bool:
+    """
+    pre: 0 <= code < CODEMAX
+    post: _
+    """
+    try:
+        return _fs_serve(code, False)
+    except Prune:
+        return True
+
+
+def h_forkserver_serve_twin(code: int) -> bool:
+    """
+    pre: 0 <= code < CODEMAX
+    post: _
+    """
+    try:
+        return _fs_serve(code, True)
+    except Prune:
         return True
